@@ -339,6 +339,8 @@ def gen_specs(prop: str, rng, tier: str, widened=False) -> list[dict]:
     for spec in specs[n_corpus:]:
         if fr.random() < 0.35:
             _worlds.shuffle_decl(spec, fr)
+        if fr.random() < 0.3:
+            _worlds.gen_warmup(spec, fr)  # the same scheduler object was invoked before, on an unrelated world
     return specs
 
 
